@@ -39,6 +39,11 @@ type (
 		F  float64 `json:"f"`
 		T  bool    `json:"t"`
 	}
+	// S7: the only binary leaf is reachable through a pointer-typed struct field
+	S7 struct {
+		Inner *S2 `json:"inner"`
+		N     int `json:"n"`
+	}
 )
 
 // Shape is one argument shape: a Go static type to emit, which is also the
@@ -172,6 +177,7 @@ var Shapes = []Shape{
 	{"map-bin-nested", "map", typeOf[map[string]any](), func(r *rand.Rand, size int) any {
 		return map[string]any{"a": map[string]any{"b": map[string]any{"c": Bytes(r, size/2)}}, "top": Bytes(r, size-size/2), "s": "x"}
 	}},
+	{"S7", "ptr-struct", typeOf[S7](), func(r *rand.Rand, size int) any { return S7{Inner: &S2{Bin: Bytes(r, size), N: 1}, N: r.Intn(100)} }},
 	// nil Binary leaves, alone in the packet: a nil Binary is still a binary leaf (empty attachment)
 	{"Binary-nil", "top", typeOf[Binary](), func(r *rand.Rand, _ int) any { return Binary(nil) }},
 	{"S2-nil", "struct-value", typeOf[S2](), func(r *rand.Rand, _ int) any { return S2{Bin: nil, N: r.Intn(100)} }},
